@@ -266,7 +266,7 @@ def main():
     os.makedirs(os.path.join(OUT, "replays"), exist_ok=True)
     witness = None
     wlog = ""
-    if by_name and not errors:
+    if by_name:
         budget = 45 if tier == "quick" else 240
         witness, evaluated, wlog = witness_search(pid, spec, budget)
     reported = 0
@@ -404,6 +404,11 @@ def main():
         # The changed code is outside what the contracts attach to (contract drift / unsupported construct).
         # Bounded stand-in: run the property's executable oracle against the real code; a failing input is
         # reported as a violation, otherwise the run stays a checker error (never a silent pass).
+        if viol_lines:
+            # obligations of the units that DID verify have counterexamples: those are reported whatever happened elsewhere
+            for ln in viol_lines:
+                print(ln)
+            return 1
         witness, evaluated, wlog = witness_search(pid, spec, 45 if tier == "quick" else 240)
         if witness is not None:
             h = hashlib.sha1((pid + "bounded-standin").encode()).hexdigest()[:10]
